@@ -79,3 +79,7 @@ claim("C10", "exploration", "Hypothesis-generated ECU models / session lists / s
       "The real scanners are executed against RandomUDSServer models; the service scan's findings are compared with what a fresh clone of the model answers to the probe PDUs in each enterable session, with coverage (every sid probed in "
       "the claimed session) and skip checks on the wire log; the identifier scan's tallies are compared with what the ECU actually answered to every identifier x sub-function probe of the range. Exploration over models and configurations.",
       "Clone of the model as ground truth (determinism is C16); in-memory transport and virtual time.")
+claim("C11", "exploration", "Hypothesis-generated exchange histories (all request classes x outcome classes x logging toggles x end by disconnect / cancellation / exception) through the real ECU client and DBHandler; rows read back with sqlite3 and compared with a reference recorder and ECU-state tracker",
+      "Histories of up to 25 exchanges run through ECU.request with a real DBHandler on a temporary SQLite file; after disconnect() - also after cancellation or a caller exception - the scan_result rows must be exactly the expected "
+      "list in transmission order: request bytes, reply bytes as received or NULL, exception, times, the client's state before the request, log mode; nothing while implicit logging is off. Exploration over histories.",
+      "Scripted transport answers immediately (real loop because aiosqlite owns a thread); max_retry=0.")
